@@ -20,7 +20,7 @@ def cases(thorough):
 
 def plan(ctx):
   n = len(cases(ctx.thorough))
-  nsh = min(n, 256 if ctx.thorough else 96)
+  nsh = min(n, 256 if ctx.thorough else 192)
   return [('sem', ctx.thorough, i, nsh) for i in range(nsh)]
 
 
